@@ -341,6 +341,34 @@ func Run(r *core.Run) {
 				r.Observe(string(text))
 			}
 		}
+		// ... and a recorded hash that is another spelling of the right bytes (the last base64url character of a sha2-256 multihash
+		// has four bits that no byte uses; padding) is not the delta's hash either: "the delta hashes to the recorded delta hash"
+		// is a statement about the recorded string
+		{
+			dh := rq.m["suffixData"].(M)["deltaHash"].(string)
+			var variants []string
+			for _, ch := range "ABCDEFGHIJKLMNOPQRSTUVWXYZabcdefghijklmnopqrstuvwxyz0123456789-_" {
+				if byte(ch) != dh[len(dh)-1] {
+					variants = append(variants, dh[:len(dh)-1]+string(ch))
+				}
+			}
+			variants = append(variants, dh+"=", dh+"==", dh+"A", dh[:len(dh)-1])
+			for vi, v := range variants {
+				m := clone()
+				m["suffixData"].(M)["deltaHash"] = v
+				text := ops.Bytes(m)
+				id := fmt.Sprintf("respelled-delta-hash/%s/%d", rq.label, vi)
+				v := v
+				r.Case(id, func() *core.Fail {
+					if op, err := parser.Parse("did:sidetree", text); err == nil {
+						return &core.Fail{Key: "respelled-delta-hash/" + rq.label, What: fmt.Sprintf("create request whose recorded delta hash %q is not the hash %q of its delta accepted as %s", v, dh, op.ID), Detail: M{"request": string(text)}}
+					}
+					return nil
+				})
+				r.Observe(string(text))
+			}
+			r.Class("respelled-delta-hash")
+		}
 		pl := clone()["delta"].(M)["patches"].([]any)
 		extra := ops.ParseJSON(`{"action":"add-also-known-as","uris":["https://added.example/"]}`)
 		{
